@@ -64,7 +64,13 @@ def _get_unmarshaller(  # type: ignore[return]
     context: routines.ContextT,
 ) -> routines.AbstractMarshaller[T]:
     if node.type in context:
-        return context[node.type]
+        routine = context[node.type]
+        # A proxy registered for a cyclic reference must not stand in for the type itself.
+        if node.cyclic or not isinstance(routine, DelayedMarshaller):
+            return routine
+
+    if node.cyclic:
+        return DelayedMarshaller(node.unwrapped, context=context, var=node.var)
 
     for check, unmarshaller_cls in _HANDLERS.items():
         if check(node.unwrapped):
